@@ -22,6 +22,9 @@ func checkC01(c *Ctx, r *Report) {
 	c01R6(c, r)
 	c01R7(c, r)
 	c01R8(c, r)
+	// encoders that must emit a sorted list (SvcParamKeys of "mandatory", ...) sort what they emit
+	r.rule("C01.R9.sort-own-slice", 1, "an encoder that sorts before writing orders the slice it writes by that slice's own elements")
+	sortOwnSlice(c, r, "C01.R9.sort-own-slice", func(fn string) bool { return strings.HasSuffix(fn, ".pack") || strings.HasPrefix(fn, "pack") })
 }
 
 // sideStructs are the hand-written wire-format structs with their packers.
@@ -35,6 +38,7 @@ var sideStructs = map[string]string{
 
 func c01R1(c *Ctx, r *Report) {
 	r.rule("C01.R1.layout", 81, "wire kinds of the struct fields, in order, equal the RFC layout table")
+	r.rule("C01.R1.field-order", 48, "fields of the same wire kind are in the RFC's order (by field name)")
 	r.rule("C01.R1.pack-seq", 81, "pack calls the pack codec of each wire field in struct order, threads (msg,off), checks every error")
 	r.rule("C01.R1.unpack-seq", 81, "unpack calls the dual codec of each wire field in struct order with the right end bound")
 	for _, t := range c.rrTypes() {
@@ -53,6 +57,36 @@ func c01R1(c *Ctx, r *Report) {
 		} else {
 			r.note("C01.R1.layout: type %s has no independent layout on file; internal consistency only", t.Name)
 			r.ok("C01.R1.layout", t.Name, posT, "no independent layout on file")
+		}
+		// same-kind neighbours (GPOS longitude/latitude, SOA's five timers, ...) are told apart by name only
+		if want, ok := rfcFieldOrder[t.Name]; ok {
+			var got []string
+			for _, f := range wf {
+				got = append(got, f.Name)
+			}
+			wantL := strings.Fields(want)
+			sameSet := len(got) == len(wantL)
+			if sameSet {
+				set := map[string]int{}
+				for _, n := range got {
+					set[n]++
+				}
+				for _, n := range wantL {
+					set[n]--
+				}
+				for _, v := range set {
+					if v != 0 {
+						sameSet = false
+					}
+				}
+			}
+			switch {
+			case !sameSet:
+				r.note("C01.R1.field-order: %s has fields [%s]; the order on file names [%s]; no independent order for this field set", t.Name, strings.Join(got, " "), want)
+				r.ok("C01.R1.field-order", t.Name, posT, "field set differs from the one on file; no verdict")
+			default:
+				r.check(strings.Join(got, " ") == want, "C01.R1.field-order", t.Name, posT, "RFC order", "struct %s puts its fields on the wire in the order [%s]; the RFC order is [%s]: pack and unpack agree with each other, so round trips succeed, but the octets are not the RFC's and other implementations read the fields swapped", t.Name, strings.Join(got, " "), want)
+			}
 		}
 		c.checkPackSeq(r, "C01.R1.pack-seq", t.Name, t.Name+".pack", kinds, wf)
 		c.checkUnpackSeq(r, "C01.R1.unpack-seq", t.Name, t.Name+".unpack", kinds, wf)
